@@ -162,7 +162,7 @@ Fixpoint wfb (t : tree) : bool :=
      ks  the last name names a circuit: the circuit name is returned as if it were a node / IndexError *)
 Fixpoint chk (km kl ks : bool) (t : tree) (pat : list string) : bool :=
   match t with
-  | Leaf _ => true
+  | Leaf _ => false
   | Circ ch =>
       match pat with
       | [] => false
